@@ -1,6 +1,8 @@
 #!/bin/bash
 # runs the quick check of the target property against every seeded change; prints one line per change
 cd /verif
+# evidence of runs against a deliberately changed tree goes to a scratch directory, never to /verif/evidence
+export VERIF_EVIDENCE_DIR=$(mktemp -d /tmp/verif-evidence-seeded.XXXXXX)
 for d in /verif/seeded/*/; do
   n=$(basename $d); p=${n%%-*}
   extra=$(python3 -c "import json;print(' '.join(json.load(open('${d}meta.json')).get('also_check',[])))" 2>/dev/null)
